@@ -623,7 +623,7 @@ func (fr *Frame) applyContract(fcx *FuncContract, f *ssa.Function, sig *types.Si
 	}
 	pre := fr.st.clone()
 	// havoc
-	mods := fr.modifiesOf(fcx, f)
+	mods := fr.modifiesOf(fcx, e)
 	fr.havocSet(mods)
 	// results
 	var res []Term
@@ -656,7 +656,7 @@ func (fr *Frame) applyContract(fcx *FuncContract, f *ssa.Function, sig *types.Si
 }
 
 // modifiesOf resolves the declared (or default) modifies set of a contract.
-func (fr *Frame) modifiesOf(fcx *FuncContract, f *ssa.Function) []string {
+func (fr *Frame) modifiesOf(fcx *FuncContract, penv *Env) []string {
 	c := fr.c
 	if !fcx.HasMod {
 		if fcx.Kind == "extern" {
@@ -675,9 +675,29 @@ func (fr *Frame) modifiesOf(fcx *FuncContract, f *ssa.Function) []string {
 			isNew = true
 			m = strings.TrimSpace(m[4:])
 		}
+		// T@e1+e2 : the component changes only at the listed objects
+		var at []Term
+		if i := strings.Index(m, "@"); i >= 0 {
+			for _, ex := range strings.Split(m[i+1:], "+") {
+				pe, err := ParseExpr(strings.TrimSpace(ex))
+				if err != nil {
+					c.unsupported("bad modifies target " + m + ": " + err.Error())
+					return []string{"all"}
+				}
+				tv, err := penv.Value(pe)
+				if err != nil {
+					c.unsupported("bad modifies target " + m + ": " + err.Error())
+					return []string{"all"}
+				}
+				at = append(at, tv.T)
+			}
+			m = strings.TrimSpace(m[:i])
+		}
 		for _, r := range fr.resolveMod(m, e) {
 			if isNew {
 				r = "new:" + r
+			} else if len(at) > 0 {
+				r = "at:" + r + "\x00" + strings.Join(at, "\x00")
 			}
 			out = append(out, r)
 		}
@@ -795,6 +815,25 @@ func (fr *Frame) havocSet(mods []string) {
 	for _, m := range mods {
 		if m == "alloc" {
 			fr.growAlloc()
+			continue
+		}
+		if strings.HasPrefix(m, "at:") {
+			parts := strings.Split(m[3:], "\x00")
+			name := parts[0]
+			srt, ok := c.compSort[name]
+			if !ok {
+				continue
+			}
+			old := c.comp(fr.st, name, srt)
+			fr.havocOne(name)
+			if strings.HasPrefix(srt, "(Array Ref ") {
+				nw := fr.st.comps[name]
+				var ne []Term
+				for _, t := range parts[1:] {
+					ne = append(ne, "(not (= r "+t+"))")
+				}
+				c.assert("(forall ((r Ref)) (! (=> " + and(ne...) + " (= (select " + nw + " r) (select " + old + " r))) :pattern ((select " + nw + " r))))")
+			}
 			continue
 		}
 		if strings.HasPrefix(m, "new:") {
@@ -1406,6 +1445,24 @@ func runTop(c *Ctx, fn *ssa.Function, fc *FuncContract) (err error) {
 		}
 	}
 	fr.entry = fr.st.clone()
+	if fc != nil && fc.HasMod {
+		fr.declMods = map[string][]Term{}
+		eenv := fr.env(fn.Blocks[0])
+		eenv.st = fr.entry
+		for _, m := range fr.modifiesOf(fc, eenv) {
+			switch {
+			case strings.HasPrefix(m, "at:"):
+				parts := strings.Split(m[3:], "\x00")
+				if prev, ok := fr.declMods[parts[0]]; !ok || len(prev) > 0 {
+					fr.declMods[parts[0]] = append(prev, parts[1:]...)
+				}
+			case strings.HasPrefix(m, "new:"):
+				fr.declMods[m] = []Term{}
+			default:
+				fr.declMods[m] = []Term{}
+			}
+		}
+	}
 	fr.run()
 	// loops declared in the contract must exist
 	if fc != nil {
@@ -1481,9 +1538,17 @@ func (fr *Frame) checkFrame(ret *ssa.Return) {
 		return
 	}
 	declared := map[string]bool{}
-	for _, m := range fr.modifiesOf(fc, fr.fn) {
+	declaredAt := map[string][]Term{}
+	eenv := fr.env(fr.fn.Blocks[0])
+	eenv.st = fr.entry
+	for _, m := range fr.modifiesOf(fc, eenv) {
 		if m == "all" {
 			return
+		}
+		if strings.HasPrefix(m, "at:") {
+			parts := strings.Split(m[3:], "\x00")
+			declaredAt[parts[0]] = append(declaredAt[parts[0]], parts[1:]...)
+			continue
 		}
 		declared[m] = true
 	}
@@ -1517,7 +1582,11 @@ func (fr *Frame) checkFrame(ret *ssa.Return) {
 		srt := c.compSort[n]
 		var goal Term
 		if strings.HasPrefix(srt, "(Array Ref ") {
-			goal = "(forall ((r Ref)) (=> (select " + entryAlloc + " r) (= (select " + cur + " r) (select " + ent + " r))))"
+			hyp := []Term{"(select " + entryAlloc + " r)"}
+			for _, t := range declaredAt[n] {
+				hyp = append(hyp, "(not (= r "+t+"))")
+			}
+			goal = "(forall ((r Ref)) (=> " + and(hyp...) + " (= (select " + cur + " r) (select " + ent + " r))))"
 		} else {
 			if declared["new:"+n] {
 				continue
@@ -1531,6 +1600,6 @@ func (fr *Frame) checkFrame(ret *ssa.Return) {
 			name += fmt.Sprintf("@ret%d", ord)
 		}
 		c.oblige(&Obligation{Name: name, Kind: "frame", Label: n, PC: fr.pc, Goal: goal, Where: c.P.pos(ret.Pos()) + " (" + fc.Where + ")",
-			Src: "component " + n + " is not in the declared modifies set"})
+			Src: "component " + n + " changes outside the declared modifies set"})
 	}
 }
